@@ -395,7 +395,8 @@ def xsubstitute(text, old_text, new_text, instance_num=None):
     text, old_text, new_text = tuple(map(_str, (text, old_text, new_text)))
     if instance_num is None:
         return text.replace(old_text, new_text) if old_text else text
-    elif isinstance(instance_num, (
+    instance_num = _text2num(instance_num)
+    if isinstance(instance_num, (
             bool, np.bool_, str, np.str_
     )) or instance_num < 1:
         return Error.errors['#VALUE!']
